@@ -127,6 +127,30 @@ func init() {
 				fail(failure{Stream: "oracle", What: fmt.Sprintf("ExtractLicenses panicked: %v", e.panicv), Case: &kase{Expr: c.text, ExprHex: hx(c.text)}, Impl: "PANIC"})
 			}
 		}
+		// version comparison: every ordered pair of ids that read as versions of one family (whether or not the range table
+		// covers the family), in the four +/no+ combinations
+		byKey := map[string][]string{}
+		for _, id := range append(append([]string{}, tblActive...), tblDeprecated...) {
+			if strings.HasSuffix(id, "+") {
+				continue
+			}
+			if f, v := versionOf(id); v.ok {
+				byKey[f] = append(byKey[f], id)
+			}
+		}
+		for _, ids := range byKey {
+			for _, a := range ids {
+				for _, b := range ids {
+					for _, pr := range [][2]string{{a + "+", b}, {a, b + "+"}, {a + "+", b + "+"}, {a, b}} {
+						res.Evaluations++
+						count("version_pairs")
+						if r := implSat(pr[0], []string{pr[1]}); r.panicv != nil {
+							fail(failure{Stream: "oracle", What: fmt.Sprintf("Satisfies panicked while comparing versions: %v", r.panicv), Case: &kase{Expr: pr[0], ExprHex: hx(pr[0]), Allowed: []string{pr[1]}}, Impl: "PANIC", Expected: "a result or an error"})
+						}
+					}
+				}
+			}
+		}
 		// slices
 		for _, l := range [][]string{nil, {}, {""}, {"", ""}, {"MIT", ""}, {"(", "MIT"}, {"MIT AND ISC"}} {
 			res.Evaluations++
